@@ -41,7 +41,10 @@ def run(chk):
         d4_banks(chk, prog, names, m)
         d3_mreq(chk, prog, names, m)
         d5_ports(chk, prog, names, m)
-    no_overrides(chk, prog, names)
+    # provided bus methods (read, write, read_word, write_word, wait_loop): left to the trait, or overridden with the
+    # same sequence of required-method calls (T-SIB, rules/corecommon.py) - every internal T-state still goes through
+    # wait_no_mreq one at a time
+    cc.provided_overrides(chk, prog, names)
     # which cycles exist, how long each is and which address it carries is the other half of this property: the
     # per-encoding bus-trace rule of C03 is part of this check too (a 4-T wait issued as one bus call is delayed once)
     from . import c03
@@ -338,14 +341,3 @@ def d5_ports(chk, prog, names, m):
 def cc_decide(r, t):
     from .z80common import decide
     return decide(r, t)
-
-
-def no_overrides(chk, prog, names):
-    for im in prog.impls:
-        if im["trait"].endswith("::Z80Bus") and im["self_ty"][0] == "adt" and im["self_ty"][1] == names.CTL:
-            over = [k.split("::")[-1] for k in im["items"]]
-            for mth in ("wait_loop", "read", "write", "read_word", "write_word"):
-                chk.check(mth not in over, "T-WRITERS/ZXController/overrides/%s" % mth,
-                          "the controller overrides Z80Bus::%s; every internal T-state must go through wait_no_mreq one at a time" % mth)
-            return
-    chk.undecided_("anchor/Z80Bus-impl", "no Z80Bus impl for the controller found")
